@@ -83,3 +83,24 @@ Theorem C02_failing_bulk_item_contributes_nothing :
     bulk1 matchf applyf extractf c g h op now = (c', g', inr e) -> c' = c.
 Proof. exact bulk1_error_noop. Qed.
 Print Assumptions C02_failing_bulk_item_contributes_nothing.
+
+(* ---------------- CreateCollection / CreateMany (Model/DriverExt.v) ---------------- *)
+From Lungo.Model Require Import DriverExt.
+From Lungo.Proofs Require Import DriverExtProofs.
+
+(* a failing CreateCollection changes nobody's view *)
+Theorem C02_create_collection_error_noop :
+  forall matchf applyf extractf projectf now ds sid h ds' e,
+    xstep matchf applyf extractf projectf now ds (XCreateColl sid h) = (ds', XR (RErr e)) -> same_views ds ds'.
+Proof. exact create_coll_error_noop. Qed.
+Print Assumptions C02_create_collection_error_noop.
+
+(* CreateMany stops at the first CreateOne that fails; that failing call
+   changes nobody's view: the result is the indexes created before it *)
+Theorem C02_create_many_stops_at_error :
+  forall matchf applyf extractf projectf now ds sid h sp t acc ds1 e,
+    step matchf applyf extractf projectf now ds (create_index_call sid h sp) = (ds1, RErr e) ->
+    create_many matchf applyf extractf projectf now ds sid h (sp :: t) acc = (ds1, XNames acc (Some e)) /\
+    same_views ds ds1.
+Proof. exact create_many_stops_at_error. Qed.
+Print Assumptions C02_create_many_stops_at_error.
